@@ -187,6 +187,13 @@ struct crs {
     const crs& operator=(const crs &other) {
         free_data();
 
+        if (!own_data) {
+            // A non-owning view forgets the borrowed arrays and owns whatever
+            // it allocates below.
+            ptr = 0; col = 0; val = 0;
+            own_data = true;
+        }
+
         nrows = other.nrows;
         ncols = other.ncols;
         nnz   = other.nnz;
